@@ -30,39 +30,93 @@ ID_TAGS_ALL = {88, 103, 89, 102, 120, 90, 114, 101}
 def run(ctx):
     P = ctx.P
     # ---------------- clause 1: capture ------------------------------------------------------------
-    ctx.rule('C10.1-capture', 'parse_local_ext rebuilds a pid/port/reference with the raw bytes start[..8+len(nested term)] of this very LOCAL_EXT', floor=3)
+    ctx.rule('C10.1-capture', 'parse_local_ext gives a nested pid/port/reference the raw bytes of this very LOCAL_EXT, start[..len(start) - len(what is left after the nested term)] '
+             '(written as 8 + consumed-by-the-nested-term or directly), either by rebuilding it with with_local_ext_bytes or by storing into its local_ext_bytes field', floor=3)
     B = ctx.body(DEC + 'parse_local_ext')
+
+    def _lin(c, depth=0):
+        """linear form {L: a, R: b, 1: k} of a length expression; L = len(start), R = len(rest after the nested term)"""
+        if depth > 12:
+            return None
+        if c[0] == 'const' and isinstance(c[1], int):
+            return {'1': c[1]}
+        if c[0] == 'len':
+            x = c[1]
+            if x == ('arg', 1):
+                return {'L': 1}
+            sx = str(x)
+            if x[0] == 'place' and x[2] == ('0',) and x[1][0] == 'payload' and x[1][1][0] == 'call':
+                if x[1][1][1].endswith('be_u64'):
+                    return {'L': 1, '1': -8}
+                if x[1][1][1].endswith('parse_term'):
+                    return {'R': 1}
+            return None
+        if c[0] == 'bin' and c[1] in ('Add', 'Sub'):
+            a, b_ = _lin(c[2], depth + 1), _lin(c[3], depth + 1)
+            if a is None or b_ is None:
+                return None
+            sg = 1 if c[1] == 'Add' else -1
+            out = dict(a)
+            for k_, v_ in b_.items():
+                out[k_] = out.get(k_, 0) + sg * v_
+            return {k_: v_ for k_, v_ in out.items() if v_ != 0}
+        return None
+
+    def _raw_ok(XB, op):
+        """(is start[..L-R], description)"""
+        cur = XB.origin(op)
+        for _ in range(6):
+            if cur[0] == 'agg' and cur[1].get('var') == 'Some' and cur[1].get('ops'):
+                cur = XB.origin(cur[1]['ops'][0])
+                continue
+            if cur[0] == 'call' and cur[1] and (cur[1].endswith('to_vec') or 'from' in cur[1] or 'copy_from_slice' in cur[1] or cur[1].endswith('::into')):
+                cur = XB.origin(XB.blocks[cur[2]]['t']['args'][0])
+                continue
+            break
+        if cur[0] == 'call' and cur[1] and cur[1].endswith('::index'):
+            it = XB.blocks[cur[2]]['t']
+            base = XB.origin(it['args'][0])
+            ro = XB.origin(it['args'][1])
+            if base == ('arg', 1, ()) and ro[0] == 'agg' and ro[1].get('adt', '').endswith('RangeTo'):
+                endc = canon(XB, ro[1]['ops'][0])
+                return _lin(endc) == {'L': 1, 'R': -1}, describe(XB, endc)
+        return False, str(cur)[:160]
     if B is not None:
+        # in-place form: stores into the local_ext_bytes field of the nested identifier (directly or through a &mut handed around)
+        stores = {}
+        for bb, j, st in B.stmts():
+            if st['k'] != '=' or not st['pl'].get('p'):
+                continue
+            ps = st['pl']['p']
+            tgts = []
+            if isinstance(ps[-1], dict) and ps[-1].get('n') == 'local_ext_bytes':
+                tgts = [st['pl']]
+            elif ps == ['*']:
+                tgts = [x for x in B.ref_targets({'l': st['pl']['l'], 'p': []}, (bb, j)) if x is not None]
+            for tg in tgts:
+                last = (tg.get('p') or [None])[-1]
+                if isinstance(last, dict) and last.get('n') == 'local_ext_bytes':
+                    for var, ty in TYPES.items():
+                        if last.get('adt') == ty:
+                            stores.setdefault(var, []).append((bb, st))
         for var, ty in TYPES.items():
             calls = [(bb, t) for bb, t in B.calls() if is_call_to(t, ty + '::with_local_ext_bytes')]
             inst = var
+            if not calls and var in stores:
+                bb, st = stores[var][0]
+                good, detail = _raw_ok(B, st['rv']['op']) if st['rv']['k'] == 'use' else (_raw_ok(B, st['rv']['ops'][0]) if st['rv']['k'] == 'agg' and st['rv'].get('var') == 'Some' and st['rv'].get('ops') else (False, 'not a Some(..)'))
+                if good:
+                    ctx.ok('C10.1-capture', inst, 'the nested %s keeps its fields and gets local_ext_bytes = Some(start[..len(start) - len(rest)])' % var.lower(), ctx.where(B, bb))
+                else:
+                    ctx.bad('C10.1-capture', inst, 'raw bytes stored into the nested %s are not start[..everything consumed by this LOCAL_EXT] (%s)' % (var.lower(), detail), ctx.where(B, bb),
+                            key='PROV:%sparse_local_ext:%s:capture' % (DEC, var))
+                continue
             if not calls:
                 ctx.bad('C10.1-capture', inst, 'a %s decoded from LOCAL_EXT is not rebuilt with its raw bytes: the 8-byte hash is lost and cannot be re-emitted' % var, ctx.where(B),
                         key='PROV:%sparse_local_ext:%s:no-capture' % (DEC, var))
                 continue
             bb, t = calls[0]
-            raw = t['args'][-1]
-            o = B.origin(raw)
-            # to_vec(Index::index(start, RangeTo{8 + nested_len}))
-            good = False
-            detail = str(o)[:160]
-            cur = o
-            for _ in range(4):
-                if cur[0] == 'call' and cur[1] and (cur[1].endswith('to_vec') or 'from' in cur[1] or 'copy_from_slice' in cur[1]):
-                    cur = B.origin(B.blocks[cur[2]]['t']['args'][0])
-                    continue
-                break
-            if cur[0] == 'call' and cur[1] and cur[1].endswith('::index'):
-                it = B.blocks[cur[2]]['t']
-                base = B.origin(it['args'][0])
-                ro = B.origin(it['args'][1])
-                if base == ('arg', 1, ()) and ro[0] == 'agg' and ro[1].get('adt', '').endswith('RangeTo'):
-                    endc = canon(B, ro[1]['ops'][0])
-                    s = str(endc)
-                    # 8 + (len(after hash) - len(remaining))
-                    if endc[0] == 'bin' and endc[1] == 'Add' and ('const', 8) in (endc[2], endc[3]) and "'Sub'" in s and 'parse_term' in s and 'be_u64' in s:
-                        good = True
-                    detail = describe(B, endc)
+            good, detail = _raw_ok(B, t['args'][-1])
             # the other fields are carried over from the nested identifier
             carried = True
             for a in t['args'][:-1]:
@@ -83,6 +137,18 @@ def run(ctx):
             continue
         QB = P.B(q)
         kinds = {var for var, ty in TYPES.items() for bb, t in QB.calls() if is_call_to(t, ty + '::with_local_ext_bytes')}
+        if not kinds and q.split('::{')[0].rsplit('::', 1)[0] not in TYPES.values():
+            # in-place form: a &mut to / a store into the local_ext_bytes field
+            for bb, j, st in QB.stmts():
+                pls = []
+                if st['k'] == '=' and st['rv']['k'] == 'ref' and st['rv'].get('mut'):
+                    pls.append(st['rv']['pl'])
+                if st['k'] == '=' and st['pl'].get('p'):
+                    pls.append(st['pl'])
+                for pl_ in pls:
+                    last = (pl_.get('p') or [None])[-1]
+                    if isinstance(last, dict) and last.get('n') == 'local_ext_bytes':
+                        kinds |= {var for var, ty in TYPES.items() if last.get('adt') == ty}
         if kinds:
             groups.setdefault(q.split('::{')[0], set()).update(kinds)
     ctx.anchor(bool(groups), 'callers of with_local_ext_bytes')
